@@ -5,13 +5,13 @@ import sys, os, json, importlib, re
 V = os.path.dirname(os.path.dirname(os.path.abspath(__file__)))
 sys.path.insert(0, V)
 DEV = {
- 'C01': 'as designed; the sweep uses 11 boundary values per type in the quick tier and the full pools in the thorough tier; truth values of narrowing assignments (value zero in the narrow type, non-zero in the register) added after seeded change C01-m1 was missed once',
+ 'C01': 'as designed; the sweep uses 11 boundary values per type in the quick tier and the full pools in the thorough tier; truth values of narrowing assignments (value zero in the narrow type, non-zero in the register) added after seeded change C01-m1 was missed once; bit-field operands read directly and as the value of =, op=, ++/-- and comma expressions added after T202',
  'C02': 'as designed, without the planned UBSan build of the references (definedness decided exactly by the model); added after the hunter round: FPU-state probes after conversions, static conversions, enum and bit-field operands, hexadecimal floating constants',
  'C03': 'as designed; selection/iteration statement scopes and block-scope function declarations added after T61/T62',
  'C04': 'the Python shadow map was not built: leaf dumps are compared with the gcc == clang consensus (objects are memset first, so every byte read is determined); packed + bit-field types excluded (D12b/c); compound-literal postfix forms, sizeof of compound literals and tagged members added after the first hunter round, parameters of variably modified type (`int a[r][c]`, `int (*p)[c]`) after T177/D77',
  'C05': 'as designed (stack machine with object-value model; static == static local == automatic == compound literal == model == gcc == clang); bit-fields up to 64 bits, nested range designators, wide strings (u/U/L), empty unions added after the hunter round; not generated: flexible array members',
  'C06': 'as designed; additionally (clang,gcc) must equal (gcc,gcc) for a signature to count; enum scalars, packed and over-aligned aggregates, padding-only eightbytes, zero-size aggregates (with and without an alignment) and unprototyped first declarations added after T47-T51, T89, T119-T121, T132, T175',
- 'C07': '11 contexts; `#if` is covered by C10 with the same integer model in preprocessor mode; floating constant expressions added after T2/T3',
+ 'C07': '11 contexts; `#if` is covered by C10 with the same integer model in preprocessor mode; floating constant expressions added after T2/T3; an enumerated must-reject set (index, width or alignment of 2^32 + k in 7 contexts, counted only if gcc and clang reject) added after T192',
  'C08': 'as designed; declarations inside member lists that declare a tag and no member (qualified, attributed, forward) added after T152',
  'C09': 'string spacing compared loosely when a `#` operand can hold already-expanded material (section 4, C09 **O**; the strict rule was a false alarm, section 8); function-like names without parentheses added after seeded change C09-m2; escapes in stringized literals, empty object-like macros before `(`, `__VA_OPT__`, comma pastes added after the hunter round',
  'C10': 'as designed (null directives with junk, `#include_next` chains of 2-3 directories and from the includer directory added after T40-T46, directories named twice and unsuffixed decimal constants above INTMAX_MAX after T170/T172, nested search directories after T211; the marker pattern missed the markers of the #include_next chains themselves until then - they were checked only through the headers they include); the model predicts the marker sequence of conditional trees exactly (gcc and clang must agree with it)',
